@@ -64,6 +64,7 @@ type cfgT struct {
 	Policy   string // "", ciphertext, default_value, error
 	Default  *defaultT
 	ByID     bool // data_type_db_identifier instead of data_type
+	Search   bool // searchable: true (the stored value carries a search hash in front of the envelope)
 }
 
 func (c cfgT) name() string {
@@ -73,6 +74,9 @@ func (c cfgT) name() string {
 	}
 	if c.ByID {
 		n += "/by-oid"
+	}
+	if c.Search {
+		n += "/searchable"
 	}
 	return n
 }
@@ -91,6 +95,9 @@ func (c cfgT) yaml() string {
 	}
 	if c.Default != nil {
 		fmt.Fprintf(&b, "        default_data_value: %q\n", c.Default.S)
+	}
+	if c.Search {
+		b.WriteString("        searchable: true\n")
 	}
 	return b.String()
 }
@@ -217,6 +224,15 @@ func main() {
 				}
 			}
 			cfgs = append(cfgs, cfgT{T: t, Envelope: e, Policy: "error", ByID: true})
+			// searchable columns with a declared type: a value whose search hash does not verify cannot
+			// be revealed either
+			cfgs = append(cfgs, cfgT{T: t, Envelope: e, Policy: "error", Search: true})
+			for i := range t.Defaults {
+				if d := t.Defaults[i]; d.Valid {
+					cfgs = append(cfgs, cfgT{T: t, Envelope: e, Policy: "default_value", Default: &d, Search: true})
+					break
+				}
+			}
 		}
 	}
 	r.States(len(cfgs))
@@ -367,7 +383,19 @@ func checkConfig(r *ev.Run, ks *filesystem.KeyStore, c cfgT, thorough bool) {
 		id   []byte
 		db   *sess.PGDB
 	}
-	for _, rd := range []rdr{{"other-keys", fx.Bravo, prot}, {"no-keys", fx.NoKeys, prot}, {"owner-damaged", fx.Alpha, damaged}} {
+	readers := []rdr{{"other-keys", fx.Bravo, prot}, {"no-keys", fx.NoKeys, prot}, {"owner-damaged", fx.Alpha, damaged}}
+	if c.Search {
+		// the envelope is intact (the owner's key opens it) but the search hash in front of it is not
+		// the hash of its content
+		hashDamaged := prot.Clone()
+		for _, row := range hashDamaged.Tables["t"].Rows {
+			if len(row[2]) > 60 {
+				row[2][7] ^= 0x10
+			}
+		}
+		readers = append(readers, rdr{"owner-search-hash-damaged", fx.Alpha, hashDamaged})
+	}
+	for _, rd := range readers {
 		s := open(rd.id)
 		rd.db.ResetSession()
 		for _, st := range reads() {
